@@ -8,7 +8,7 @@
 From DV Require Import Base.Prelude Model.NameM Model.DnssecM.
 From Coq Require Import Permutation Sorted.
 From DV Require Import Proofs.NameValid Proofs.NameOrder Proofs.DnssecRef Proofs.DnssecCanon Proofs.DnssecKey.
-From DV Require Import Proofs.DnssecSort Proofs.DnssecRrsig Proofs.DnssecBitmap Proofs.DnssecOrder Proofs.DnssecChain.
+From DV Require Import Proofs.DnssecSort Proofs.DnssecRrsig Proofs.DnssecBitmap Proofs.DnssecOrder Proofs.DnssecChain Proofs.DnssecZonemd.
 Open Scope Z_scope.
 
 (* Rdata.to_digestable, for any per-type table that passes the RFC 4034 6.2 check, is the RFC
@@ -143,6 +143,32 @@ Theorem nsec_chain_visits_each_once : forall origin apex nodes l,
 Proof. intros. split; [apply rfc_chain_owners|apply rfc_chain_next]. Qed.
 Print Assumptions nsec_chain_visits_each_once.
 
+(* Zone._compute_digest (ZONEMD, SIMPLE scheme, SHA-384/512): the octets fed to the hash are the
+   RFC 8976 3.3/3.4 serialisation (is_zonemd_input): a list of RRs that is a permutation of the
+   zone's records minus the apex ZONEMD RRset and the RRSIG covering it, sorted by canonical owner
+   name, then type, then canonical RDATA, each RR as owner|type|class|TTL|RDLENGTH|RDATA with
+   canonical owner and RDATA.  Hypotheses = the zone is a dictionary of dictionaries (distinct owner
+   names, distinct (type, covers) per node), RRSIG rdatasets are filed under the type they cover
+   (`cr` is the canonical RDATA as a total function), rdata shapes fit their types, lengths fit. *)
+Theorem zonemd_input_eq_rfc : forall (tbl : list entry) (origin : name) (relativize : bool)
+    (nodes : list (name * list zrds)),
+  forallb flag_ok tbl = true ->
+  ci_distinct (map fst nodes) ->
+  (forall nd, In nd nodes -> NoDup (map rds_key (snd nd))) ->
+  (forall nd rds, In nd nodes -> In rds (snd nd) -> z_type rds <> tRRSIG -> z_covers rds = 0) ->
+  (forall nd rds fs, In nd nodes -> In rds (snd nd) -> In fs (z_rdatas rds) -> z_type rds = tRRSIG ->
+     0 <= z_covers rds < 65536 /\ exists rest, cr origin rds fs = u16 (z_covers rds) ++ rest) ->
+  (forall nd rds fs, In nd nodes -> In rds (snd nd) -> In fs (z_rdatas rds) ->
+     arity_ok tbl (z_class rds) (z_type rds) fs = true) ->
+  (forall nd rds fs, In nd nodes -> In rds (snd nd) -> In fs (z_rdatas rds) -> zlen (cr origin rds fs) < 65536) ->
+  (forall nd, In nd nodes -> exists a, rfc_expand (fst nd) (Some origin) = Ok a) ->
+  forall all, rfc_zone_rrs origin nodes = Ok all ->
+  forall halg scheme, halg = 1 \/ halg = 2 -> scheme = 1 ->
+  exists input, compute_digest_input tbl origin relativize nodes halg scheme = Ok input
+                /\ is_zonemd_input origin (zapex origin relativize) nodes input.
+Proof. exact compute_digest_eq_rfc. Qed.
+Print Assumptions zonemd_input_eq_rfc.
+
 (* ---------- non-vacuity ---------- *)
 Example keytag_hyps_satisfiable :
   key_id 257 3 8 [1; 2; 3; 4; 5] = Ok (rfc_keytag (u16 257 ++ [3; 8] ++ [1; 2; 3; 4; 5]))
@@ -232,5 +258,35 @@ Proof.
   - apply Permutation_cons_app with (l1 := [[[101; 120]; []]; [[115]; [101; 120]; []]; [[110]; [115]; [101; 120]; []]]) (l2 := []).
     rewrite app_nil_r. reflexivity.
   - vm_compute. reflexivity.
+  - vm_compute. reflexivity.
+Qed.
+
+Example zonemd_hyps_satisfiable :
+  let ex := [[69; 120]; []] in
+  let tbl := [ {| e_class := 255; e_type := 2; e_calls := [{| c_none := true; c_canon := true |}]; e_loop := None |};
+               {| e_class := 255; e_type := 46; e_calls := [{| c_none := true; c_canon := true |}]; e_loop := None |} ] in
+  let mk ty cov rds := {| z_type := ty; z_covers := cov; z_class := 1; z_ttl := 60; z_rdatas := rds |} in
+  let nodes := [ ([[97]; [69; 120]; []], [mk 1 0 [[FRaw [10; 0; 0; 2]]; [FRaw [10; 0; 0; 1]]]]);
+                 (ex, [mk 63 0 [[FRaw [0; 0; 0; 1; 1; 1; 9]]]; mk 2 0 [[FName [[78; 83]; [69; 120]; []]]];
+                       mk 46 63 [[FRaw [0; 63; 8; 1]; FName ex; FRaw [7]]]; mk 46 2 [[FRaw [0; 2; 8; 1]; FName ex; FRaw [8]]]]) ] in
+  ci_distinct (map fst nodes) /\
+  (forall nd, In nd nodes -> NoDup (map rds_key (snd nd))) /\
+  (exists all, rfc_zone_rrs ex nodes = Ok all /\ length all = 6%nat) /\
+  compute_digest_input tbl ex false nodes 1 1 =
+    Ok ([2; 101; 120; 0] ++ [0; 2; 0; 1; 0; 0; 0; 60; 0; 7] ++ [2; 110; 115; 2; 101; 120; 0]
+        ++ [2; 101; 120; 0] ++ [0; 46; 0; 1; 0; 0; 0; 60; 0; 9] ++ [0; 2; 8; 1; 2; 101; 120; 0; 8]
+        ++ [1; 97; 2; 101; 120; 0] ++ [0; 1; 0; 1; 0; 0; 0; 60; 0; 4] ++ [10; 0; 0; 1]
+        ++ [1; 97; 2; 101; 120; 0] ++ [0; 1; 0; 1; 0; 0; 0; 60; 0; 4] ++ [10; 0; 0; 2]).
+Proof.
+  cbv zeta. split; [|split; [|split]].
+  - split.
+    + repeat constructor; cbn; intuition discriminate.
+    + intros x y Hx Hy. cbn in Hx, Hy.
+      repeat (destruct Hx as [<-|Hx]; [|]); try contradiction;
+        repeat (destruct Hy as [<-|Hy]; [|]); try contradiction;
+        try reflexivity; unfold ci_equal; cbn; intros H; discriminate H.
+  - intros nd Hn. cbn [In] in Hn. repeat (destruct Hn as [<-|Hn]; [|]); try contradiction;
+      cbn; repeat constructor; cbn; intuition discriminate.
+  - eexists. split; [vm_compute; reflexivity|reflexivity].
   - vm_compute. reflexivity.
 Qed.
